@@ -1280,8 +1280,20 @@ func (l *c14Logger) Info(msg string, kv ...interface{}) {
 			}
 		}
 	}
+	// the pool's own peer blacklist, read under the pool mutex BEFORE this fetcher chooses a peer
+	// (requestChunk -> GetPeer follows this log call in program order)
+	bl := []string{}
+	pool := l.r.sy.snapshots
+	pool.Lock()
+	for id, ok := range pool.peerBlacklist {
+		if ok {
+			bl = append(bl, string(id))
+		}
+	}
+	pool.Unlock()
+	sort.Strings(bl)
 	l.r.mtx.Lock()
-	l.r.emit("Fetch", map[string]interface{}{"g": l.r.gname(), "i": idx})
+	l.r.emit("Fetch", map[string]interface{}{"g": l.r.gname(), "i": idx, "bl": bl})
 	l.r.mtx.Unlock()
 }
 
